@@ -301,8 +301,10 @@ def judge(R, c, p, N, capture, solve, model, G, extra_api):
             R.count("relation_true_sat")
         else:
             R.count("relation_true_rejected" + ("" if not in_domain else "_in_domain"))
-            if in_domain and sat:
-                pass   # rejected although true and inside the inner domain: C05's business ("does not raise")
+            if in_domain and not sat and c.tid.startswith(("b", "bool_")):
+                # boolean operands have no width question: a true relation between bits that is refused with checks on *and* cannot be
+                # proven with checks off is enforced as another relation than the one asserted
+                R.violation("true-relation-between-bits-unprovable:" + c.tid, "%s on %s: the relation is true, the call is refused and, with checks off, the constraints are unsatisfiable" % (c.expr, c.inputs), **det)
     else:
         if accepted:
             R.violation("false-accepted:" + c.tid, "%s on %s: relation false but the run-time check accepts" % (c.expr, c.inputs), **det)
